@@ -302,9 +302,9 @@ pub fn run(spec: RunSpec) -> i32 {
         eprintln!(
             "--- violation: check={} signature={}\n    {}\n    input: {}",
             v.check,
-            v.sig,
-            v.msg,
-            truncate(&v.input.to_string(), 600)
+            truncate(&v.sig, 200),
+            truncate(&v.msg, 700),
+            truncate(&v.input.to_string(), 500)
         );
     }
 
